@@ -344,9 +344,9 @@ func TestQuery(t *testing.T) {
 // ---- (c) HTTP channel resources ---------------------------------------------------------------------------------
 
 type HStep struct {
-	A     string `json:"a"` // send | doret | recv | close
-	Kind  string `json:"kind,omitempty"`
-	I     int    `json:"i,omitempty"`
+	A    string `json:"a"` // send | doret | recv | close
+	Kind string `json:"kind,omitempty"`
+	I    int    `json:"i,omitempty"`
 	// State is the model's state after this action and the steps that follow it by themselves;
 	// nil when the model had not yet taken every such step (no comparison then).
 	State *struct {
